@@ -229,7 +229,13 @@ func c06Scenarios(tier string) []scenario {
 			}
 			for _, m := range []string{"echo-reader", "echo-closeread", "echo-noreader"} {
 				prm := c06Params{Name: m + sfx, K: k, Mode: m, PeerEOF: eof}
-				scs = append(scs, scenario{Name: prm.Name + "/" + k.String(), Cfg: tierCfg(tier, P(2), P(-1)), Setup: c06Setup(prm)})
+				th := P(-1)
+				if eof && m != "echo-noreader" {
+					// with the peer's EOF as one more event all interleavings did not finish in
+					// 20 minutes (4.9 M executions): bounded at 3 preemptions instead
+					th = P(3)
+				}
+				scs = append(scs, scenario{Name: prm.Name + "/" + k.String(), Cfg: tierCfg(tier, P(2), th), Setup: c06Setup(prm)})
 			}
 			prm := c06Params{Name: "echo-closeread-ping" + sfx, K: k, Mode: "echo-closeread", PeerEOF: eof, Pinger: true}
 			scs = append(scs, scenario{Name: prm.Name + "/" + k.String(), Cfg: tierCfg(tier, P(1), P(2)), Setup: c06Setup(prm)})
